@@ -480,6 +480,12 @@ def c10_structure(units, R):
             if l is None or r is None:
                 return None
             return l.add(r, 1 if e['op'] == '+' else -1)
+        if k == 'cond':
+            l, r = _ev(e['t'], st), _ev(e['e'], st)
+            if l is not None and r is not None and l.eq(r):
+                return l
+            # one value, whichever arm it comes from: copies of it stay equal to each other
+            return Lin(0, {'(%s)@%d' % (expr_str(e)[:30], e.get('id', 0)): 1})
         if k == 'call' and callee_name(e) in u.functions and not e.get('args'):
             # an accessor of the global error (cJSON_GetErrorPtr): its value is its return expression as the globals stand now
             h = u.functions[callee_name(e)]
@@ -799,6 +805,59 @@ def bnd6(units, R, functions=None, nonterm=None):
                             steps.append(expr_str(ev.node))
             g2 = {n: {m for m in g[n] if m in comp and m not in progress} for n in comp if n not in progress}
             left = [c for c in _sccs(g2, set(g2)) if len(c) > 1 or c[0] in g2.get(c[0], ())]
+            # a step-free cycle that continues only through `if (t)` although every assignment of t on it is the constant that
+            # sends the branch the other way is no cycle (a flag set where the helper gave up: t = false; ... while (t))
+            for _pass in range(4):
+                if not left:
+                    break
+                pruned = False
+                for scc in left:
+                    sset = set(scc)
+                    for bid in scc:
+                        bn = cfg.nodes[bid]
+                        if bn.kind != 'branch' or bn.expr is None:
+                            continue
+                        e = strip_casts(bn.expr)
+                        want_nonzero = True
+                        pc = cmp_parts(e)
+                        if pc is not None and pc[2] == 0 and pc[1] in ('==', '!='):
+                            want_nonzero = pc[1] == '!='
+                            e = strip_casts(pc[0])
+                        if e.get('k') != 'ref' or e.get('dk') != 'local':
+                            continue
+                        defs = {}
+                        for m in scc:
+                            for ev in node_effects(cfg.nodes[m]):
+                                if ev.kind in ('store', 'incdec') and is_ref(ev.lhs) and strip_casts(ev.lhs)['d'] == e['d']:
+                                    defs[m] = const_val(ev.node['r']) if (ev.kind == 'store' and ev.node['op'] == '=') else None
+                        if not defs or any(v is None for v in defs.values()):
+                            continue
+                        for (y, l) in cfg.succ[bid]:
+                            if y not in sset or y not in g2.get(bid, ()) or l is None or l[0] not in ('T', 'F'):
+                                continue
+                            needs_nonzero = (l[0] == 'T') == want_nonzero
+                            if any((v != 0) == needs_nonzero for v in defs.values()):
+                                continue
+                            # every cycle through this edge passes one of the definitions?
+                            g3 = {n: {m for m in g2[n] if m in sset and m not in defs} for n in sset if n not in defs}
+                            seen = set()
+                            work = [y] if y in g3 else []
+                            back = False
+                            while work:
+                                x = work.pop()
+                                if x == bid:
+                                    back = True
+                                    break
+                                if x in seen:
+                                    continue
+                                seen.add(x)
+                                work.extend(g3.get(x, ()))
+                            if not back:
+                                g2[bid] = g2[bid] - {y}
+                                pruned = True
+                if not pruned:
+                    break
+                left = [c for c in _sccs(g2, set(g2)) if len(c) > 1 or c[0] in g2.get(c[0], ())]
             head = min(cfg.nodes[n].line for n in comp)
             R.ob('BND6', fn, None, 'loop at line %d advances a cursor on every iteration' % head, not left,
                  'steps: %s' % sorted(set(steps))[:4] if not left else
